@@ -394,7 +394,12 @@ func hintBase(k int) []byte {
 
 func checkHintString(c *drv.Ctx, i int64, s []byte, what string) {
 	c.Eval(1)
-	h, rc := dilithium.VerifUnpackHint(s)
+	var h [8][256]int32
+	var rc int
+	if o := drv.Call(func() { h, rc = dilithium.VerifUnpackHint(s) }); o != "ok" {
+		c.Fail(i, "hint-decoder-faulted", map[string]any{"case": what, "hint_section": drv.FullHex(s), "observed": o})
+		return
+	}
 	rh, ok := refdil.DecodeHint(s)
 	if (rc == 0) != ok {
 		c.Fail(i, fmt.Sprintf("hint-decoder-accepts=%v-reference=%v", rc == 0, ok), map[string]any{"case": what, "hint_section": drv.FullHex(s)})
